@@ -208,8 +208,45 @@ def compare(ctx, wb, wb2, labels, channel, tag="meta"):
             extra={"orig_class": a["class"], "new_class": b["class"], "orig_msg": a.get("msg", ""), "new_msg": b.get("msg", ""),
                    "site": b.get("site", "") or a.get("site", ""), "labels": labels, "channel": channel, "diff": detail, "f16": f16},
         ))
+    if channel == "dict" and b["ok"] and tag == "meta":
+        stage_corr(ctx, wb2, b, case)
     ctx.record({"wb": case["wb"], "labels": labels, "channel": channel}, a["ok"] and bool(labels))
     return ca == cb
+
+
+def stage_corr(ctx, wb, r, case):
+    """Tie of the Lean header stage + structural pipeline (`Spell.headerStage` ∘ `Rows.formOut`) to the code: the
+    (noisy) raw survey sheet goes through cleanText / headerStage / dealiasType / formOut in the driver and the primary
+    instance it predicts must be the one in the implementation's XForm."""
+    import formobs
+
+    sv = spell.sheet(wb, "survey")
+    if sv is None:
+        return
+    st = spell.sheet(wb, "settings")
+    if st is not None and (len(st["rows"]) != 1 or any(c.strip().lower().replace(" ", "_") == "clean_text_values" for c in st["cols"])):
+        return
+    if spell.sheet(wb, "entities") is not None:
+        return
+    lists = []
+    ch = spell.sheet(wb, "choices")
+    if ch is not None:
+        idx = [i for i, h in enumerate(ch["cols"])
+               if (m := ctx.driver.call("spell.header", h=h, sheet="choices", double=any("::" in c for c in ch["cols"]))).get("tokens") == ["list name"]]
+        if len(idx) != 1:
+            return
+        lists = sorted({" ".join((r[idx[0]] or "").split()) if False else (r[idx[0]] or "").strip() for r in ch["rows"]} - {""})
+    m = ctx.driver.call(
+        "spell.form_raw", headers=sv["cols"], rows=[[v or "" for v in r] for r in sv["rows"]], lists=lists,
+        settings_headers=st["cols"] if st else [], settings_values=[v or "" for v in st["rows"][0]] if st else [])
+    ctx.count("stage:" + m["outcome"])
+    if m["outcome"] == "ok":
+        obs = formobs.observe(r["xform"])
+        if not formobs.nt_eq(obs["instance"], m["instance"]):
+            ctx.mismatch("Spell.headerStage + Rows.formOut vs implementation (primary instance)", case,
+                         formobs.nt_str(obs["instance"]), formobs.nt_str(m["instance"]))
+    elif m["outcome"] == "error":
+        ctx.mismatch("Spell.headerStage + Rows.formOut rejects a sheet the implementation accepts", case, "ok", m["err"])
 
 
 def strip(wb, keep_orig=False):
